@@ -137,6 +137,11 @@ def svd_contract(M, U, s, VT, tag, full_U=False, full_V=False, exact=True):
     for l in range(k):
         if l + 1 < k:
             c.assume("ge", (so[l] - so[l + 1]).p, f"{tag}: s descending")
+    if k and c.options.get("full_rank"):
+        from fractions import Fraction
+
+        c.assume("gt", (so[k - 1] - Fraction(1, 10**12)).p, f"{tag}: full rank (s_min > 1e-12) [configuration assumption]")
+        c.notes.append("configuration assumes full rank: every singular value of every decomposed matrix > 1e-12")
     if k:
         c.assume("ge", so[k - 1].p, f"{tag}: s >= 0")
         for l in range(k - 1):
